@@ -1286,5 +1286,5 @@ func run(c *vt.C) func(Script) (bool, string, *vt.Finding) {
 func init() { cRun.ReplayRepeat = 20 }
 
 func TestRunLoop(t *testing.T) {
-	vt.Run(t, cRun, vt.N(8000, 600000), gen, run(cRun))
+	vt.Run(t, cRun, vt.N(8000, 400000), gen, run(cRun))
 }
